@@ -73,6 +73,20 @@ Theorem C17_wrong_digest_closes_client : forall dg ck n cs sch r mych d rnd,
   c_next dg (CWaitAck n cs sch r mych (dg ck mych)) (AServerAck d) ck rnd = CClose.
 Proof. exact c_wrong_digest_closes. Qed.
 
+(* replaying the digest the client itself sent (a cookie-less acceptor's only move) closes,
+   unless the two digests coincide *)
+Theorem C17_replay_closes_client : forall dg ck n cs sch mych rnd,
+  dg ck sch <> dg ck mych ->
+  c_next dg (CWaitAck n cs sch (dg ck sch) mych (dg ck mych)) (AServerAck (dg ck sch)) ck rnd = CClose.
+Proof. exact c_replay_closes. Qed.
+
+(* the symbolic digest the model is evaluated with (the harness maps SHA-256 values to it and
+   tests the real function's injectivity on structured cookie pairs) is injective *)
+Theorem C17_dg_sym_injective : forall k ch k' ch',
+  ch < 4294967296 -> ch' < 4294967296 ->
+  dg_sym k ch = dg_sym k' ch' -> k = k' /\ ch = ch'.
+Proof. exact dg_sym_injective. Qed.
+
 (* the executable FSM oracle accepts every model run (so it cannot raise a false
    alarm on behaviour that conforms to the model) *)
 Theorem C17_fsm_oracle_sound_server : forall dg ck ops,
@@ -270,3 +284,5 @@ Print Assumptions C17_ok_stable.
 Print Assumptions C17_oracle_sound.
 Print Assumptions C17_closed_oracle_sound.
 Print Assumptions C17_getsessions_auth_only.
+Print Assumptions C17_replay_closes_client.
+Print Assumptions C17_dg_sym_injective.
